@@ -22,7 +22,7 @@ PROPS = {
     'C08': {'harnesses': [('c08_io', 1.0)]},
     'C09': {'harnesses': [('c09_sleep', 1.0)]},
     'C10': {'harnesses': [('c10_yield', 1.0)]},
-    'C11': {'harnesses': [('c11_chan', 1.0)]},
+    'C11': {'harnesses': [('c11_chan', 0.8), ('c20_msignal', 0.2)]},
     'C12': {'harnesses': [('c12_barrier', 1.0)]},
     'C13': {'harnesses': [('c13_mpmc', 1.0)]},
     'C14': {'harnesses': [('c14_hazard', 0.65), ('c13_mpmc', 0.35)]},
